@@ -40,7 +40,8 @@ EmitClause(e) ==
     ELSE LET els == ElemsOf(doc, ch.first, ch.first + ch.k - 1)
              pgs == {doc[i].pg : i \in els}
          IN IF ~(ch.ps <= ch.pe /\ ch.ps >= SetMin(pgs) /\ ch.pe <= SetMax(pgs)) THEN "page-range"
-            ELSE IF ~(\E i \in els : \E m \in {7, minor} : ch.path = Enclosing(doc, i, m)) THEN "path"
+            ELSE IF ~(\/ \E i \in els : \E m \in {7, minor} : ch.path = Enclosing(doc, i, m)
+                      \/ minor = 0 /\ WeakPath(ch.path, SetMax(els))) THEN "path"
             ELSE ""
 
 FinishClause(e) ==
